@@ -144,6 +144,69 @@ def check_decode_purity(rep, case, rng):
     rep.count('decode-purity')
 
 
+def check_decode_value_spec(rep, case, rng):
+    """the guiding type may be an object that already holds a value (a configured default, a previous result): decoding
+    through it must neither change it nor make results alias it or one another"""
+    g = gen.Gen(rng, max_depth=3, allow_any=True)
+    try:
+        v2 = g.val(case.t)
+        other = engine.Case(case.t, v2)
+    except Exception:  # noqa
+        return
+    if not engine.representable(other):
+        return
+    mode = rng.choice([('ber', True, 0), ('ber', False, 0), ('cer', False, 1000), ('der', True, 0)])
+    ie = codec.impl_encode(mode[0], other.t, other.v, mode[1], mode[2], obj=other.fresh_obj())
+    if ie[0] != 'ok':
+        return
+    data = ie[1]
+    spec = case.fresh_obj()                   # a value object of the same type, holding case.v
+    replay = dict(case.replay, kind='decode-value-spec', mode=list(mode), bytes=data.hex(), decoded_value=gen.val_sexp(v2))
+    try:
+        before = (gen.val_sexp(gen.abstract(case.t, spec)), shape(spec))
+    except Exception:  # noqa
+        return
+    try:
+        o1, _ = codec.DEC[mode[0]].decode(data, asn1Spec=spec)
+        o2, _ = codec.DEC[mode[0]].decode(data, asn1Spec=spec)
+    except Exception:  # noqa
+        return
+    try:
+        after = (gen.val_sexp(gen.abstract(case.t, spec)), shape(spec))
+    except Exception as e:  # noqa
+        after = ('unreadable: %r' % (e,), None)
+    if after != before:
+        rep.fail('decode-mutates-value-spec', 'a guiding object holding %s reads %s after decoding %s through it'
+                 % (before[0][:100], str(after[0])[:100], gen.val_sexp(v2)[:100]), replay)
+        return
+    try:
+        # reference: the same octets decoded through a fresh schema object of the type (what the octets denote is a
+        # round-trip matter, C01/C02; here only the dependence on the guiding object's content matters)
+        ref, _ = codec.DEC[mode[0]].decode(data, asn1Spec=engine.Case(case.t, case.v).schema)
+        a1 = gen.val_sexp(gen.abstract(case.t, o1))
+        aref = gen.val_sexp(gen.abstract(case.t, ref))
+    except Exception:  # noqa
+        a1 = aref = None
+    if a1 != aref:
+        rep.fail('value-spec-changes-result', 'decoding through a guiding object that holds a value gives %s, through a fresh schema %s'
+                 % (a1[:150], aref[:150]), replay)
+        return
+    s2 = snapshot(other, o2, None)
+    try:
+        mutate_all(o1)
+    except Exception:  # noqa
+        pass
+    if snapshot(other, o2, None) != s2:
+        rep.fail('decoded-results-share-state', 'mutating one result decoded through a value-holding guide changed another', replay)
+    try:
+        after = (gen.val_sexp(gen.abstract(case.t, spec)), shape(spec))
+    except Exception as e:  # noqa
+        after = ('unreadable: %r' % (e,), None)
+    if after != before:
+        rep.fail('decoded-result-shares-state-with-spec', 'mutating a decoded result changed the value-holding guiding object', replay)
+    rep.count('decode-value-spec')
+
+
 def mutate_all(obj, depth=0):
     if depth > 8:
         return
@@ -370,6 +433,7 @@ def run(rep, tier, seed):
             continue
         rep.case(case.canon, nontrivial=gen.nontrivial(case.t), sample={'type': gen.ty_sexp(case.t)[:200], 'value': gen.val_sexp(case.v)[:200]})
         check_decode_purity(rep, case, rng)
+        check_decode_value_spec(rep, case, rng)
         if sigs.has_constructed_default(case.t) or sigs.has_real_default(case.t):
             continue      # == on those values raises by itself (findings T11/T12 of C01)
         check_encode_purity(rep, case, rng)
